@@ -19,7 +19,7 @@ on the outcomes of the real implementation *is* the specification.  Equality of 
 -/
 namespace Frappy.Spec.C01
 open FloatOps DType
-open PVal (toFloat? seqItems? prevItems prevFields dictGet pyEq ofJVal)
+open PVal (toFloat? seqItems? prevItems prevFields dictGet pyEq ofJVal isNone given notOffered)
 variable {F : Type} [FloatOps F]
 
 /-! ## The declared value set -/
@@ -171,25 +171,17 @@ def AllDen (P : Option (PVal F) → PVal F → PVal F → Prop) : List (PVal F) 
   | ps, v :: vs, r :: rs => P ps.head? v r ∧ AllDen P ps.tail vs rs
   | _, _, _ => False
 
-def isNone : PVal F → Bool
-  | .none => true
-  | _ => false
-
-/-- the value offered for member `k`: an item with that key whose value is not `None`
-("allow None instead of missing key"); the last one if the key is repeated -/
-def given (fields : List (String × PVal F)) (k : String) : Option (PVal F) :=
-  fields.foldl (fun acc kv => if kv.1 = k && !isNone kv.2 then some kv.2 else acc) none
-
-/-- key-wise over a struct: a member that was offered denotes what was offered, a member that was not
-is taken over from `previous`; nothing else appears, nothing is lost -/
+/-- key-wise over a struct: a member that was offered denotes what was offered; a member that was not
+is the member of `previous` (`notOffered`), validated like an offered one; nothing else appears, nothing
+is lost -/
 def DenotesStruct (M : String → PVal F → PVal F → Prop) (prevD fields r : List (String × PVal F)) : Prop :=
   (∀ kv ∈ r, match given fields kv.1 with
       | some v => M kv.1 v kv.2
-      | none => match dictGet prevD kv.1 with
-        | some pv => PVal.same pv kv.2 = true
+      | none => match given (notOffered fields prevD) kv.1 with
+        | some pv => M kv.1 pv kv.2
         | none => False) ∧
   (∀ kv ∈ fields, isNone kv.2 = false → kv.1 ∈ r.map (·.1)) ∧
-  (∀ kv ∈ prevD, kv.1 ∈ r.map (·.1))
+  (∀ kv ∈ prevD, isNone kv.2 = false → kv.1 ∈ r.map (·.1))
 
 mutual
 /-- `r` is the value offered as `o` to a parameter of type `dt` currently holding `prev` -/
@@ -447,13 +439,15 @@ def decDenotesStruct (M : String → PVal F → PVal F → Prop) (d : ∀ k v r,
   unfold DenotesStruct
   have : ∀ kv : String × PVal F, Decidable (match given fields kv.1 with
       | some v => M kv.1 v kv.2
-      | none => match dictGet prevD kv.1 with
-        | some pv => PVal.same pv kv.2 = true
+      | none => match given (notOffered fields prevD) kv.1 with
+        | some pv => M kv.1 pv kv.2
         | none => False) := by
     intro kv
     split
     · exact d _ _ _
-    · split <;> infer_instance
+    · split
+      · exact d _ _ _
+      · infer_instance
   infer_instance
 
 mutual
